@@ -69,19 +69,21 @@ def g_server_call(rng, sess, retired):
     code = rng.choice([0, 0, 0, 14, 49, 2, 4096, 14, rng.choice(NEAR14)])
     r = rng.random()
     base = {"id": i, "controls": small_controls(rng)}
+    # matched DN and diagnostic message: empty, equal, and DIFFERENT from each other (every result-carrying call)
+    mdn, diag = rng.choice([("", ""), ("", "d"), ("cn=m", ""), ("cn=m", "diagnostic text"), ("x", "x"), ("dc=a,dc=b", "cn=m")])
     if r < 0.25:
-        return {"k": "bindResponse", "sasl": rng.choice([None, "aa"]), "code": code, "mdn": C.tx(""), "diag": C.tx(rng.choice(["", "d"])), **base}
+        return {"k": "bindResponse", "sasl": rng.choice([None, "aa"]), "code": code, "mdn": C.tx(mdn), "diag": C.tx(diag), **base}
     if r < 0.45:
         name = rng.choice([None, None, "1.2.3", NOTICE])
         return {"k": "extendedResponse", "name": None if name is None else C.tx(name), "value": rng.choice([None, "01"]), "code": code,
-                "mdn": C.tx(""), "diag": C.tx(""), **base}
+                "mdn": C.tx(mdn), "diag": C.tx(diag), **base}
     if r < 0.6:
         return {"k": "entry", "name": C.tx("cn=x"), "attrs": [{"name": C.tx("cn"), "vals": [rng.choice(["78", "62", "", "7a"]) for _ in range(rng.choice([1, 2, 3]))]}]
                 if rng.random() < 0.5 else [], **base}
     if r < 0.7:
         return {"k": "reference", "uris": [C.tx("ldap://a")], **base}
     if r < 0.92:
-        return {"k": "done", "code": code, "mdn": C.tx(""), "diag": C.tx(""), **base}
+        return {"k": "done", "code": code, "mdn": C.tx(mdn), "diag": C.tx(diag), **base}
     return {"k": "unbind"}
 
 
@@ -949,3 +951,82 @@ def replay_history(payload):
         if q["op"] == "call":
             print(q["name"], json.dumps(q["call"])[:160], "->", json.dumps(r.get("outcome"))[:120], r.get("sess", {}).get("state"))
     return 0
+
+
+# ------------------------------------------------------------------ message ids beyond the interpreter's int -> str digit limit (implementation only)
+
+def huge_id_checks(hist):
+    """A client with operations in progress receives a well-formed response (every kind) whose message id has more decimal digits than CPython's
+    int -> str limit (default 4300; 640 when the application lowered it), positive or negative.  No such id was ever issued, so: ProtocolError, the
+    session CLOSED, everything afterwards refused (C08, C09).  A server that receives a REQUEST with such an id treats it like any other id (it can
+    answer it).  Nothing here turns the number into text; these histories cannot go through JSON / the line protocol under the same limit."""
+    import sys
+
+    import ber as B
+
+    def tlv(tag, content):
+        return bytes([tag]) + B.enc_len(len(content)) + content
+
+    res = tlv(0x0A, b"\0") + tlv(4, b"") + tlv(4, b"")
+    out = {"C08": [], "C09": []}
+    prev = sys.get_int_max_str_digits() if hasattr(sys, "get_int_max_str_digits") else None
+    for limit in ([prev, 640] if prev is not None else [None]):
+        if limit is not None:
+            sys.set_int_max_str_digits(limit)
+        try:
+            for digits in (641, 4301, 9000):
+                for sign in (1, -1):
+                    n = sign * (10 ** digits + 3)
+                    idb = n.to_bytes((n if n >= 0 else ~n).bit_length() // 8 + 1, "big", signed=True)
+                    kinds = {"bindResp": tlv(0x61, res), "searchEntry": tlv(0x64, tlv(4, b"cn=x") + tlv(0x30, b"")), "searchRef": tlv(0x73, tlv(4, b"ldap://a")),
+                             "searchDone": tlv(0x65, res), "extResp": tlv(0x78, res)}
+                    for kind, op in kinds.items():
+                        for prior in ("mid", "binding", "fresh"):
+                            hist["huge-id:client"] += 1
+                            c = sansldap.LDAPClient()
+                            if prior == "mid":
+                                c.extended_request("1.2"); c.search_request("", filter=None); c.data_to_send()
+                            elif prior == "binding":
+                                c.bind_simple("", ""); c.data_to_send()
+                            desc = {"kind": kind, "digits": digits, "sign": sign, "client": prior, "int_max_str_digits": limit}
+                            try:
+                                got = c.receive(tlv(0x30, tlv(2, idb) + op))
+                                outcome = f"returned {len(got)} message(s)"
+                            except sansldap.ProtocolError:
+                                outcome = "ProtocolError"
+                            except BaseException as e:  # noqa: BLE001
+                                outcome = "raised " + type(e).__name__
+                            after = c.state.name
+                            later = None
+                            if outcome != "ProtocolError" or after != "CLOSED":
+                                what = (f"a {kind} whose message id has {digits} digits (never issued) gave '{outcome}' and left the client {after}: it must raise "
+                                        "ProtocolError and close the session")
+                                out["C09"].append({"key": None, "what": what, **desc})
+                                out["C08"].append({"key": None, "what": what + " (a protocol error closes the session)", **desc})
+                            else:
+                                try:
+                                    c.extended_request("1.3")
+                                    later = "accepted a request"
+                                except sansldap.LDAPError:
+                                    pass
+                                if c.data_to_send() or later:
+                                    out["C08"].append({"key": None, "what": "a client closed by a response with a huge unknown id produced bytes / accepted a call afterwards", **desc})
+                    # server: a request carrying such an id is an ordinary request
+                    hist["huge-id:server"] += 1
+                    s_ = sansldap.LDAPServer()
+                    try:
+                        ms = s_.receive(tlv(0x30, tlv(2, idb) + tlv(0x77, tlv(0x80, b"1.2"))))
+                        s_.extended_response(ms[0].message_id)
+                        ok = ms[0].message_id == n and s_.state.name == "OPENED" and len(s_.data_to_send()) > digits // 3
+                        why = "" if ok else "the request or its response was mishandled"
+                    except BaseException as e:  # noqa: BLE001
+                        ok, why = False, f"raised {type(e).__name__}"
+                    if not ok:
+                        out["C08"].append({"key": None, "what": f"a server cannot receive and answer a request whose message id has {digits} digits: {why}",
+                                           "digits": digits, "sign": sign, "int_max_str_digits": limit})
+                    if len(out["C08"]) + len(out["C09"]) > 8:
+                        return out
+        finally:
+            if prev is not None:
+                sys.set_int_max_str_digits(prev)
+    return out
